@@ -147,6 +147,11 @@ def main():
         for p in ctx.parts.values():
             allv.extend(getattr(p, "violations", []))
         total_viol = sum(p.stats.get("violations", 0) for p in ctx.parts.values())
+        if os.environ.get("VERIF_DUMP_VIOLATIONS"):
+            # debugging aid: every recorded violation (up to the per-class caps), one JSON object per line
+            with open(os.environ["VERIF_DUMP_VIOLATIONS"], "w") as f:
+                for v in allv:
+                    f.write(json.dumps({"part": v.part, "case": core.case_to_text(v.case), "message": v.message}) + "\n")
         new = allv
         known = collections.Counter()
         for p in ctx.parts.values():
